@@ -77,7 +77,7 @@ def chain_cases(draw, tier):
     else:
         m = draw(st.integers(-3, 3))
         y = [m * v + 50 for v in x]
-    k = draw(st.sampled_from([0, 0, -10, -3, 4, 10])) if fam != 'counter' else 0
+    k = draw(st.sampled_from([0, 0, -10, -3, 4, 10, -25, -30])) if fam != 'counter' else 0    # powers of two: still exact
     P = [[a, b] for a, b in zip(x, y)]
     if draw(st.integers(0, 7)) == 0:      # an exactly repeated consecutive sample
         j = draw(st.integers(0, n - 1))
@@ -201,7 +201,7 @@ def planar_cases(draw, tier):
             off = draw(st.tuples(st.integers(0, 200), st.integers(0, 200)))
             if off not in P:
                 P[draw(st.integers(0, n - 1))] = off
-    k = draw(st.sampled_from([0, 0, -10, 4]))
+    k = draw(st.sampled_from([0, 0, -10, 4, -25, -30]))
     off = draw(st.sampled_from([0, 0, 0, 3000000, 1700000000]))     # byte counts / time stamps: large offset, unit spacing
     if off and g <= 1000:
         P = [(a + off, b + off // 3) for a, b in P]
